@@ -133,3 +133,25 @@ pub fn trace(prop: &str, tier: Tier, idx: usize, choices: &[u16], script: Option
         None => crate::simnet::run_one::<In>(c, choices, max_polls),
     }
 }
+
+pub fn bench_leak() {
+    let cfgs = c04_configs(Tier::Quick);
+    let c = &cfgs[4];
+    let rss = || std::fs::read_to_string("/proc/self/statm").ok().and_then(|s| s.split_whitespace().nth(1).and_then(|x| x.parse::<u64>().ok())).unwrap_or(0) * 4;
+    let h = {
+        let c = c.clone();
+        std::thread::spawn(move || {
+            let r0 = rss();
+            let n: usize = std::env::var("LEAK_N").ok().and_then(|s| s.parse().ok()).unwrap_or(20000);
+            for i in 0..n {
+                let (_r, _) = crate::simnet::run_reused::<In>(&c, &[], 20_000);
+                if i % 5000 == 4999 {
+                    let mi = unsafe { libc::mallinfo2() };
+                    println!("  wheel timers {} delays {}", ntex_util::time::vclock::wheel_timers(), ntex_util::time::vclock::pending_delays());
+                    println!("after {} execs: rss {} KB (+{} KB) alive tasks {} malloc in-use {} KB free {} KB", i + 1, rss(), rss() - r0, crate::simnet::alive_tasks(), mi.uordblks / 1024, mi.fordblks / 1024);
+                }
+            }
+        })
+    };
+    h.join().unwrap();
+}
